@@ -59,7 +59,11 @@ LEVEL_TEXT = ("Lean 4 theorems over an executable model of DetailedPlacement's d
               "replayed move); the direct oracle checks "
               "legality in every Detailed callback and on return, that ignored cells do not move, and that placeDetailed never fails "
               "after legalize succeeded; thorough tier: exhaustive enumeration of all feasible swap/insert sequences of length <= 4 "
-              "on small instances through the real API")
+              "on small instances through the real API.  One end-to-end case in three (one directly driven case in four) makes the "
+              "measured call on a Circuit object with a past (common/past.hpp: built in a perturbed state — one attribute class "
+              "differing at a time for two thirds —, computeRows/computePlacementArea/hpwl/rowHeight/check called, brought to the case's "
+              "public state through only the needed setters, setupRows included): state kept inside the object between calls that a "
+              "setter forgets to refresh shows up as an illegal exposed placement or a failure; replay files carry the past")
 LEVEL_NOTE = ("Trusted: Lean kernel (propext/Classical.choice/Quot.sound), the hand-written model's tie to the code (differential, "
               "bounded by the generator), tools/translate.py + clang-14 AST for Gen/GeomFns (shared geometry layer and Circuit::rowHeight, proved "
               "equal to the hand-written ones: geometry_layer_translated), lemon NetworkSimplex, boost::polygon via the Freespace model, the harness' legality oracle.")
